@@ -42,10 +42,9 @@ Record variant := mkv {
   v_capfail : bool;    (* 3c1f8de: a failing capture pipe() releases the stage pipes *)
   v_bunop : bool;      (* d4ac685: a builtin whose target cannot be opened fails with status 1 *)
   v_bfold : bool;      (* c05c052: _get_std_fds as a plain left-to-right fold *)
-  (* PROPOSED repair, off in the code as it is: *)
-  v_capfirst : bool    (* notes/C04-fix-4.patch: a captured last stage gets the capture pipes BEFORE its redirections *)
+  v_capfirst : bool    (* 65131df: a captured last stage gets the capture pipes BEFORE its redirections *)
 }.
-Definition v0 : variant := mkv true true true true true true false.
+Definition v0 : variant := mkv true true true true true true true.
 
 Section Run.
 Variable v : variant.
@@ -157,7 +156,7 @@ Definition child_run (pipes : list (nat * nat)) (capo cape : option (nat * nat))
   match child_from st hs p with
   | inr q => mkkid idx q (OExit 1)
   | inl p =>
-    (* notes/C04-fix-4.patch (v_capfirst): the capture pipes become 1 / 2 BEFORE the redirection loop, and the
+    (* /repo 65131df (v_capfirst): the capture pipes become 1 / 2 BEFORE the redirection loop, and the
        loop has no special case for a captured stage any more *)
     let cap := (idx =? pc) && capture in
     let p := if cap && v_capfirst v then child_capture capo cape false false p else p in
